@@ -281,6 +281,12 @@ class AsyncRunnerTemplate(BaseRunner, ABC):
         map_over_list = [map_over] if isinstance(map_over, str) else list(map_over)
         input_variations = list(generate_map_inputs(normalized_values, map_over_list, map_mode, clone))
         if not input_variations:
+            # Nothing to run and nothing to report, but the call has ended: processors
+            # are shut down exactly once per top-level call
+            if _parent_span_id is None:
+                dispatcher = self._create_dispatcher(event_processors)
+                if dispatcher.active:
+                    await self._shutdown_dispatcher_async(dispatcher)
             return []
         if max_concurrency is None and len(input_variations) > MAX_UNBOUNDED_MAP_TASKS:
             raise ValueError(
